@@ -126,6 +126,8 @@ type caseProg struct {
 	gasLimit int64 // datoshi, < 0 = unlimited (then maxSteps bounds the run)
 	base     int64 // price of one coefficient unit in picoGAS
 	kind     string
+	expect   string // corpus cases: the final state the limits prescribe ("" = none)
+	maxSteps int    // corpus cases: exact number of executed instructions (0 = not checked)
 }
 
 func newVM(p *caseProg, w world) *vm.VM {
@@ -344,10 +346,15 @@ func (rn *runner) exec(p *caseProg, emit bool) runResult {
 		if len(s) > 0 {
 			bounds[&s[0]] = boundariesOf(s)
 			idxOf[&s[0]] = i
-			if bounds[&s[0]] != nil && emit {
-				o.Count("script:passes-static-check")
-			} else if emit {
-				o.Count("script:fails-static-check")
+			verdict := "bad"
+			if bounds[&s[0]] != nil {
+				verdict = "ok"
+			}
+			if emit {
+				o.Count("script:static-check-" + verdict)
+				if len(s) <= 1536 {
+					o.Line("chk "+hx.Hex(s), verdict)
+				}
 			}
 		}
 	}
@@ -357,6 +364,7 @@ func (rn *runner) exec(p *caseProg, emit bool) runResult {
 		hookIP    int
 		everCyc   bool
 		exactOff  bool // an exactness mismatch was already reported for this case
+		underOff  bool // an under-count was already reported for this case
 		lost      bool
 		pendExc   bool
 		lastOp    = "LOAD"
@@ -400,7 +408,9 @@ func (rn *runner) exec(p *caseProg, emit bool) runResult {
 		if wr.reach > vm.MaxStackSize {
 			o.Fail("reach-gt-2048", rn.k, "after %s: %d items reachable by walking, VM counter %d, state %s", lastOp, wr.reach, refs, st)
 		}
-		if wr.reach > refs {
+		if wr.reach > refs && !underOff {
+			underOff = true // reported once per case, keyed by the instruction after which it first shows
+			res.leaked = true
 			o.Fail("under-count-after-"+lastOp, rn.k, "after %s: %d items reachable by walking but the VM counts %d", lastOp, wr.reach, refs)
 		}
 		if wr.badInt != "" {
@@ -421,7 +431,7 @@ func (rn *runner) exec(p *caseProg, emit bool) runResult {
 	}
 
 	exactness := func(obs string, unwoundAcross bool, droppedPrims, droppedAll int) {
-		if exactOff || everCyc || obs == "FAULT" {
+		if exactOff || underOff || everCyc || obs == "FAULT" {
 			return
 		}
 		var refs, reach, depth int
@@ -464,6 +474,17 @@ func (rn *runner) exec(p *caseProg, emit bool) runResult {
 			body, modelled, throws = describe(v, op, param)
 		} else {
 			body = "BAD"
+		}
+		// a cyclic structure may be built and orphaned by the same instruction (m[k] = m with the
+		// operands as the only references): look at the operands, not only at what stays reachable
+		if derr == nil && (op == opcode.APPEND || op == opcode.SETITEM) {
+			item, cont := peek(v, 0), peek(v, 1)
+			if op == opcode.SETITEM {
+				cont = peek(v, 2)
+			}
+			if item != nil && cont != nil && reachesItem(item, cont) {
+				everCyc = true
+			}
 		}
 		before := snapshot(v)
 		throwerStack := v.Estack()
